@@ -335,11 +335,34 @@ pub fn catch_timeout<T: Send + 'static>(
             });
         })
         .expect("spawn");
-    match rx.recv_timeout(Duration::from_secs(secs)) {
-        Ok(Ok(v)) => Caught::Ok(v),
-        Ok(Err(m)) => Caught::Panic(m),
-        Err(_) => Caught::Hang,
+    match recv_patient(&rx, secs) {
+        Some(Ok(v)) => Caught::Ok(v),
+        Some(Err(m)) => Caught::Panic(m),
+        None => Caught::Hang,
     }
+}
+
+/// Wait for a result for `secs` seconds of *running* time: the wait is cut into one-second slices
+/// and a slice that took much longer than a second on the wall clock (the whole machine was paused
+/// or suspended, e.g. while a snapshot of the sandbox is taken) is not charged. A computation that
+/// really hangs or spins lets every slice expire on time, so it is still reported after `secs`.
+pub fn recv_patient<T>(rx: &mpsc::Receiver<T>, secs: u64) -> Option<T> {
+    let mut charged = 0u64;
+    let mut slices = 0u64;
+    while charged < secs && slices < 20 * secs + 600 {
+        let t0 = std::time::Instant::now();
+        match rx.recv_timeout(Duration::from_secs(1)) {
+            Ok(v) => return Some(v),
+            Err(mpsc::RecvTimeoutError::Disconnected) => return None,
+            Err(mpsc::RecvTimeoutError::Timeout) => {
+                slices += 1;
+                if t0.elapsed() < Duration::from_millis(2500) {
+                    charged += 1;
+                }
+            }
+        }
+    }
+    None
 }
 
 /// `file:line: msg` → a signature that survives line-number changes:
